@@ -833,14 +833,54 @@ func (c *Compiler) funcBody(b funcBody) {
 	c.funcKey = funcKeyOf(b.decl)
 	defer func() { c.funcKey = oldKey }()
 	sc0, fn0 := c.cb.Scope(), c.cb.Func()
-	c.do("BodyStart", 0, func() { c.cb = b.fn.BodyStart(c.Pkg) })
-	c.recordParams(b.fn.Type().(*types.Signature))
-	c.withLabels(b.decl.Body, func() {
-		c.stmts(b.decl.Body.List)
+	c.withLabelCheck(b.decl.Body, "function "+c.funcKey, func() {
+		c.do("BodyStart", 0, func() { c.cb = b.fn.BodyStart(c.Pkg) })
+		c.recordParams(b.fn.Type().(*types.Signature))
+		c.withLabels(b.decl.Body, func() {
+			c.stmts(b.decl.Body.List)
+		})
+		c.do("End", 0, func() { c.cb.End(b.decl) })
 	})
-	c.do("End", 0, func() { c.cb.End(b.decl) })
 	if c.cb.Scope() != sc0 || c.cb.Func() != fn0 {
 		panic(&Imbalance{"scope/func not restored after function body " + c.funcKey})
+	}
+}
+
+// labelSnapshot records which of the given names resolve to which label right now.
+func (c *Compiler) labelSnapshot(names map[string]bool) map[string]*gogen.Label {
+	m := map[string]*gogen.Label{}
+	for n := range names {
+		if l, ok := c.cb.LookupLabel(n); ok {
+			m[n] = l
+		}
+	}
+	return m
+}
+
+func labelNames(body *ast.BlockStmt, into map[string]bool) {
+	ast.Inspect(body, func(n ast.Node) bool {
+		if l, ok := n.(*ast.LabeledStmt); ok {
+			into[l.Label.Name] = true
+		}
+		return true
+	})
+}
+
+// withLabelCheck runs f (which opens and closes a function body) and verifies that the label context visible
+// afterwards is the one that was visible before (C16).
+func (c *Compiler) withLabelCheck(body *ast.BlockStmt, what string, f func()) {
+	names := map[string]bool{}
+	labelNames(body, names)
+	for n := range c.labels {
+		names[n] = true
+	}
+	before := c.labelSnapshot(names)
+	f()
+	after := c.labelSnapshot(names)
+	for n := range names {
+		if before[n] != after[n] {
+			panic(&Imbalance{fmt.Sprintf("label context not restored after %s: label %s resolved to %p before and %p after", what, n, before[n], after[n])})
+		}
 	}
 }
 
@@ -924,11 +964,17 @@ func (c *Compiler) stmtRecover(s ast.Stmt) {
 		return
 	}
 	init0 := c.inInit
+	sc0, fn0 := c.cb.Scope(), c.cb.Func()
 	defer func() {
 		if e := recover(); e != nil {
 			switch e.(type) {
 			case *Unsupported, *FEError, *Imbalance, runtimeError:
 				panic(e)
+			}
+			if c.cb.Scope() != sc0 || c.cb.Func() != fn0 {
+				// the error was raised inside a construct nested in this statement (e.g. the header of an if inside a
+				// closure): there is no statement-level recovery protocol for that, the case decides nothing
+				panic(&Unsupported{"reported error inside a nested construct header: " + fmt.Sprint(e)})
 			}
 			c.Reported = append(c.Reported, fmt.Sprint(e))
 			if c.inInit > init0 {
@@ -1409,16 +1455,18 @@ func (c *Compiler) expr2(e ast.Expr, lhs int) {
 		sig := c.toSig(nil, e.Type, nil)
 		var fn *gogen.Func
 		c.do("NewClosure", 0, func() { fn = cb.NewClosureWith(sig) })
-		c.do("BodyStart", 0, func() { c.cb = fn.BodyStart(c.Pkg) })
-		oldKey := c.funcKey
-		c.funcKey = fmt.Sprintf("%s.func@%d", oldKey, len(c.Decls))
-		c.recordParams(sig)
-		inInit := c.inInit
-		c.inInit = 0
-		c.withLabels(e.Body, func() { c.stmts(e.Body.List) })
-		c.inInit = inInit
-		c.funcKey = oldKey
-		c.do("End", 1, func() { c.cb.End(e) })
+		c.withLabelCheck(e.Body, "closure", func() {
+			c.do("BodyStart", 0, func() { c.cb = fn.BodyStart(c.Pkg) })
+			oldKey := c.funcKey
+			c.funcKey = fmt.Sprintf("%s.func@%d", oldKey, len(c.Decls))
+			c.recordParams(sig)
+			inInit := c.inInit
+			c.inInit = 0
+			c.withLabels(e.Body, func() { c.stmts(e.Body.List) })
+			c.inInit = inInit
+			c.funcKey = oldKey
+			c.do("End", 1, func() { c.cb.End(e) })
+		})
 	default:
 		if c.isType(e) {
 			t := c.toType(e)
